@@ -1048,3 +1048,5 @@ PROPS["C06"]["also"] = [("C05", "panic")]
 #  C07 "a peripheral that stops answering is reported Offline / one that answers again is reported Online and Configured" is the
 #      event life-cycle monitored as C14's cycle_events codes 1405 (event word rejected) and 1406 (is_live / is_running inconsistent with events).
 PROPS["C07"]["also"] = [("C14", "cycle_events:1405"), ("C14", "cycle_events:1406")]
+#  C12 "a station answers status requests addressed to it": a panicking poll answers nothing (C05's panic rule in the fdl domain).
+PROPS["C12"]["also"] = [("C05", "panic")]
